@@ -48,6 +48,7 @@ type reply struct {
 	ArtefactSkipped    int
 	KernelOffFormula   int
 	MaskedChmodSetgid  int
+	MaskedRemoveAll    int
 	Outcomes           map[string]int
 	Viols              []*violAgg
 	Samples            []*replay
@@ -479,6 +480,7 @@ type evalOut struct {
 	skipArt bool
 
 	kernelOffFormula bool
+	maskedRemoveAll  bool
 	maskedChmod      bool
 	args             opArgs
 }
@@ -626,6 +628,17 @@ func (w *worker) eval(b *block, nodes []node, c callT) (out evalOut, err error) 
 			// S_ISGID; the property does not name that rule
 			if (c.Op == "Chmod" || c.Op == "File.Chmod") && strings.HasSuffix(d, ":perm:setgid-only-avfs") {
 				out.maskedChmod = true
+
+				continue
+			}
+
+			// RemoveAll "removes everything it can but returns the first error it
+			// encounters": when both sides refuse, how much each removed before
+			// the refusal is not a permission decision (os.RemoveAll cannot even
+			// list a directory it may not read, MemFS removes the children the
+			// caller may remove) and is not compared.
+			if c.Op == "RemoveAll" && rk.Kind != "ok" && rv.Kind != "ok" {
+				out.maskedRemoveAll = true
 
 				continue
 			}
@@ -1155,6 +1168,10 @@ func (w *worker) runTask(blocks []*block, t task) (r reply) {
 
 			if o.maskedChmod {
 				r.MaskedChmodSetgid++
+			}
+
+			if o.maskedRemoveAll {
+				r.MaskedRemoveAll++
 			}
 
 			r.Outcomes[c.Op+"|"+actorClass(b.Fam, nodes, users[b.Actor])+"|"+o.rk.Kind]++
